@@ -111,7 +111,14 @@ impl Property for C10 {
                         // blocks of consecutive timestamps; the cheap keys get many more signatures
                         let key = [2u8, 3, 2, 3, 2, 3, 0, 2][(i % 8) as usize];
                         let n = if key == 0 { 24 } else { 150 };
-                        Some(C10Case { start: st[(i as usize / 8) % st.len()], ops: vec![], sweep: n, sweep_key: key, sweep_t0: 1_500_000_000 + (i as u32) * 1000 })
+                        // the first blocks sit on the boundaries of the 32-bit timestamp range
+                        let t0 = match i {
+                            0..=7 => 0,
+                            8..=15 => (1u32 << 31) - 12,
+                            16..=23 => u32::MAX - n + 1,
+                            _ => 1_500_000_000 + (i as u32) * 1000,
+                        };
+                        Some(C10Case { start: st[(i as usize / 8) % st.len()], ops: vec![], sweep: n, sweep_key: key, sweep_t0: t0 })
                     })
                 },
             },
@@ -142,7 +149,7 @@ fn sweep(case: &C10Case, o: &mut Outcome) -> Result<(), (String, String)> {
     o.evals = case.sweep as u64;
     o.nontrivial = case.sweep as u64;
     for i in 0..case.sweep {
-        let t = case.sweep_t0 + i;
+        let t = case.sweep_t0.saturating_add(i);
         let r = panics::catch(|| -> Result<(), String> {
             pkg.sign_with_timestamp(ks.signers[k].clone(), t).map_err(|e| format!("sign failed: {e}"))?;
             for v in 0..4 {
